@@ -12,7 +12,7 @@ MSGI = 'ommx.v1.Instance'
 # concrete coefficient tuples (c1, c2, c12, k): f = c1*x1 + c2*x2 + c12*x1*x2 + k ; integers and dyadic rationals (exact in binary64)
 COEFS_QUICK = [(1, 1, 0, -1), (2, -3, 0, 1), (Fraction(1, 2), Fraction(1, 4), 0, -1), (3, 0, 0, Fraction(-3, 2)), (-1, -2, 0, -1), (1, 1, 0, 7), (0, 0, 0, 0),
                (2, 4, 0, -6), (1, -1, 1, 0), (Fraction(1, 2), 0, Fraction(-3, 2), -1), (0, 0, 0, -2), (0, 0, 0, 3), (6, -4, 0, 0)]
-COEFS_MORE = [(5, 3, 0, -7), (Fraction(3, 4), Fraction(-5, 4), 0, Fraction(1, 2)), (1, 2, -1, -2), (-2, 2, 2, -1), (4, 6, 0, -9), (Fraction(1, 8), Fraction(3, 8), 0, -1), (0, 1, 1, -3)]
+COEFS_MORE = [(5, 3, 0, -7), (Fraction(3, 4), Fraction(-5, 4), 0, Fraction(1, 2)), (1, 2, -1, -2), (-2, 2, 0, -1), (4, 6, 0, -9), (Fraction(1, 8), Fraction(3, 8), 0, -1), (0, 1, 1, -3)]
 
 
 def content_factor(cs):
